@@ -27,6 +27,17 @@ Theorem C07_not_due_waits : forall tb cf now mid s p,
 Proof. exact not_due_stays_queued. Qed.
 Print Assumptions C07_not_due_waits.
 
+(* 1b. the time a request was made = the time of the update being processed when the strategy issued it, also when the request is for
+       ANOTHER market than the one being processed (AOn: updates of other markets of the same event in between); the bet delay is
+       that of the target market's current book *)
+Theorem C07_request_is_stamped_with_the_current_update : forall cf now st mid s a p,
+  In p (s_queue (request cf now st mid s a)) -> In p (s_queue s) \/
+  (pk_created p = now /\
+   exists target m, pk_market p = target /\ (target = mid \/ exists a', a = AOn target a') /\
+                    get_market target (s_markets s) = Some m /\ pk_bet_delay p = match mk_book m with Some b => b_delay b | None => 0 end).
+Proof. exact request_stamp. Qed.
+Print Assumptions C07_request_is_stamped_with_the_current_update.
+
 (* 2./5. state used, no look-ahead: the execution phase of an update is a function of the update's time and market and
       of the state BEFORE the update - the triggering book is not an argument *)
 Theorem C07_no_lookahead : forall tb cf s e1 e2,
